@@ -62,6 +62,64 @@ pub fn collect_string(chars: Vec<char>) -> (r: String)
     ensures r@ == chars@
 { unimplemented!() }
 
+// ---- the reading of "a string literal denotes exactly its characters with the escapes decoded (an invalid
+// escape, hex digit or unescaped `$` is a reported error with its position)" for a NON-interpolated literal:
+// a forward scan of the source text from the character after the opening quote
+pub open spec fn esc_value(c: char) -> Option<char> {
+    if c == '\\' || c == '"' || c == '$' { Some(c) } else if c == 'n' { Some('\n') } else if c == 'r' { Some('\r') } else { None }
+}
+pub enum Scan { Closed(Seq<char>, int), Bad(LexError), Open }     // decoded text + index of the closing quote / the error / unterminated
+pub open spec fn lift(p: Seq<char>, s: Scan) -> Scan {
+    match s { Scan::Closed(cs, e) => Scan::Closed(p + cs, e), o => o }
+}
+pub open spec fn scan(t: Seq<char>, i: int) -> Scan
+    decreases t.len() - i
+{
+    if i < 0 || i >= t.len() { Scan::Open }
+    else if t[i] == '"' { Scan::Closed(Seq::empty(), i) }
+    else if t[i] == '$' { Scan::Bad(LexError::UnescapedDollar(loc_at(t, i))) }
+    else if t[i] == '\\' {
+        if i + 1 >= t.len() { Scan::Open }
+        else if t[i + 1] == 'x' {
+            if i + 2 >= t.len() { Scan::Open } else {
+                match hex_value(t[i + 2]) {
+                    None => Scan::Bad(LexError::InvalidHexChar(loc_at(t, i + 2), t[i + 2])),
+                    Some(a) => if i + 3 >= t.len() { Scan::Open } else {
+                        match hex_value(t[i + 3]) {
+                            None => Scan::Bad(LexError::InvalidHexChar(loc_at(t, i + 3), t[i + 3])),
+                            Some(b) => lift(seq![((a * 16 + b) as u8) as char], scan(t, i + 4)),
+                        }
+                    },
+                }
+            }
+        } else {
+            match esc_value(t[i + 1]) {
+                Some(c) => lift(seq![c], scan(t, i + 2)),
+                None => Scan::Bad(LexError::InvalidEscapeChar(loc_at(t, i + 1), t[i + 1])),
+            }
+        }
+    } else { lift(seq![t[i]], scan(t, i + 1)) }
+}
+pub proof fn lemma_lift_lift(p: Seq<char>, q: Seq<char>, s: Scan)
+    ensures lift(p, lift(q, s)) == lift(p + q, s),
+{
+    match s { Scan::Closed(cs, e) => { assert(p + (q + cs) =~= (p + q) + cs); }, _ => {} }
+}
+pub open spec fn lit_start(t: Seq<char>, p0: int) -> int { if p0 < t.len() { p0 + 1 } else { p0 } }
+pub open spec fn lit_scan(t: Seq<char>, p0: int) -> Scan { scan(t, lit_start(t, p0)) }
+// where the decoding unit in progress started, given the scanner state
+spec fn scan_inv(t: Seq<char>, start: int, pos: int, state: StrScanState, first_hex: Option<u8>, chars: Seq<char>) -> bool {
+    match state {
+        StrScanState::None => scan(t, start) == lift(chars, scan(t, pos)),
+        StrScanState::Escape => pos >= 1 && t[pos - 1] == '\\' && scan(t, start) == lift(chars, scan(t, pos - 1)),
+        StrScanState::Hex => match first_hex {
+            None => pos >= 2 && t[pos - 2] == '\\' && t[pos - 1] == 'x' && scan(t, start) == lift(chars, scan(t, pos - 2)),
+            Some(n) => pos >= 3 && t[pos - 3] == '\\' && t[pos - 2] == 'x' && hex_value(t[pos - 1]) == Some(n) && scan(t, start) == lift(chars, scan(t, pos - 3)),
+        },
+        StrScanState::Interpolate => false,
+    }
+}
+
 // ---- what interpolate_string needs from the slots (its precondition in unit V-interp)
 // nesting depth of braces over cs[from..to)
 pub open spec fn depth(cs: Seq<char>, from: int, to: int) -> int
@@ -119,6 +177,11 @@ SPEC = r"""
         (r matches Ok(Token::StrLiteral(s))) ==> !interpolate,
         (r matches Ok(Token::InterpStrLiteral(s, slots))) ==> interpolate,
         r is Ok ==> (r matches Ok(Token::StrLiteral(s)) || r matches Ok(Token::InterpStrLiteral(s, slots))), // [C15:a_string_literal_lexes_to_a_string_token]
+        (!interpolate && lit_scan(old(self).scanner.text(), old(self).scanner.pos()) is Closed)
+            ==> (r matches Ok(Token::StrLiteral(s)) && s@ == lit_scan(old(self).scanner.text(), old(self).scanner.pos())->Closed_0
+                 && final(self).scanner.pos() == lit_scan(old(self).scanner.text(), old(self).scanner.pos())->Closed_1 + 1), // [C15:a_string_literal_denotes_exactly_its_characters_with_the_documented_escapes_decoded_and_ends_at_its_closing_quote]
+        (!interpolate && lit_scan(old(self).scanner.text(), old(self).scanner.pos()) is Bad)
+            ==> r == Err::<Token, LexError>(lit_scan(old(self).scanner.text(), old(self).scanner.pos())->Bad_0), // [C15_C18:an_invalid_escape_or_hex_digit_or_an_unescaped_dollar_is_a_reported_error_at_the_position_of_that_character]
         final(self).scanner.text() == old(self).scanner.text(),
         0 <= final(self).scanner.pos() <= old(self).scanner.text().len(), // [C03:the_scanner_never_moves_past_the_end_of_the_input]
 """
@@ -158,6 +221,7 @@ def build(read):
                 0 <= self.scanner.pos() <= self.scanner.text().len(),
                 chars@.len() <= self.scanner.pos(),
                 first_hex_char matches Some(x) ==> x < 16,
+                !(state is Hex) ==> first_hex_char is None,
                 slots_ok(chars@, interpolation_slots@),
                 interpolation_slots@.len() > 0 ==> interpolation_slots@.last().1 <= (if state is Interpolate { cur_interpolation_start as int } else { chars@.len() as int }),
                 state is Interpolate ==> cur_interpolation_start < chars@.len() && chars@[cur_interpolation_start as int] == '$'
@@ -167,16 +231,17 @@ def build(read):
                     && (forall|j: int| cur_interpolation_start + 1 < j <= chars@.len() ==> #[trigger] depth(chars@, cur_interpolation_start + 1, j) > 0)
                     && (cur_interpolation_start + 1 < chars@.len() ==> chars@[cur_interpolation_start + 1] == '{'),
                 !interpolate ==> interpolation_slots@.len() == 0,
+                !interpolate ==> scan_inv(self.scanner.text(), lit_start(old(self).scanner.text(), old(self).scanner.pos()), self.scanner.pos(), state, first_hex_char, chars@), // [C15:the_text_decoded_so_far_is_the_decoding_of_the_source_read_so_far]
                 !(state is Interpolate) ==> interpolation_brace_count == 0,"""}}
     loops[1]["body_start"] = "let ghost slots0 = interpolation_slots@;"
     f = extract.annotate_fn(hdr + body, spec=SPEC, attrs="#[verifier::exec_allows_no_decreases_clause]\n#[verifier::loop_isolation(false)]", loops=loops)
     # proof hints (ghost only): pushing a character leaves the brace depth of every prefix and the recorded slots untouched
     n = len(re.findall(r"chars\.push\(", f))
     f = re.sub(r"(\n)(\s*)(chars\.push\(([^;]*)\);)",
-               r"\1\2let ghost __c0 = chars@;\n\2\3\n\2proof { lemma_depth_push(__c0, chars@.last(), cur_interpolation_start as int + 1); lemma_slots_push(__c0, chars@.last(), slots0); }", f)
+               r"\1\2let ghost __c0 = chars@;\n\2\3\n\2proof { lemma_depth_push(__c0, chars@.last(), cur_interpolation_start as int + 1); lemma_slots_push(__c0, chars@.last(), slots0); lemma_lift_lift(__c0, seq![chars@.last()], scan(self.scanner.text(), self.scanner.pos())); assert(__c0 + seq![chars@.last()] =~= chars@); }", f)
     b.edits.append(f"annotation: a ghost snapshot and two lemma calls around each of the {n} `chars.push(..)` statements")
     # the push that ends a step inside a slot: connect the brace counter with the depth of the extended text
-    marker = "lemma_slots_push(__c0, chars@.last(), slots0); }"
+    marker = "assert(__c0 + seq![chars@.last()] =~= chars@); }"
     k = f.rfind(marker)
     if k < 0:
         raise Undecided("next_str_literal: hint site lost")
@@ -204,6 +269,24 @@ def build(read):
 
 
 def replays(failed):
+    def exp(out=None, err=None):
+        def judge(rc, o, e):
+            if rc not in (0, 103):
+                return f"interpreter crashed (exit {rc})"
+            if out is not None and (rc != 0 or o != out):
+                return f"expected stdout {out!r}"
+            if err is not None and (rc != 103 or err not in e.splitlines()[0]):
+                return f"expected a first stderr line containing {err!r}"
+            return None
+        return judge
+    bs = chr(92)
+    yield ("hex, dollar, backslash and quote escapes", 'print("' + bs + 'x41' + bs + '$' + bs + bs + bs + '"")\n', exp("A$" + bs + '"\n'))
+    yield ("\\r is CR and \\n is LF", 'print("a' + bs + 'rb" == "a' + bs + 'x0db")\nprint("a' + bs + 'nb" == "a' + bs + 'x0ab")\nprint("' + bs + 'r" == "' + bs + 'n")\n',
+           exp("true\ntrue\nfalse\n"))
+    yield ("hex escapes are base 16", 'print("' + bs + 'x4a" == "J")\n', exp("true\n"))
+    yield ("an unknown escape is an error at that character", 'print("' + bs + 't")\n', exp(err=":1:9: 't' is not a valid escape character"))
+    yield ("an invalid hex digit is an error at that character", 'print("' + bs + 'x4g")\n', exp(err=":1:11: 'g' is not a valid hex character"))
+    yield ("an unescaped dollar in a plain string is an error at that character", 'print("a$b")\n', exp(err=":1:9:"))
     import interp
     for x in interp.replays(failed):
         yield x
